@@ -14,3 +14,8 @@ import Xo.LayM
 import Xo.LayR
 import Xo.LayH
 import Xo.Lemmas.Alloc
+import Xo.Lemmas.Alloc2
+import Xo.Props.C04
+import Xo.Props.C12
+import Xo.Drv.Util
+import Xo.Drv.Alloc
